@@ -183,6 +183,29 @@ Proof.
 Qed.
 Print Assumptions C09_midset_overlap.
 
+(* ---- a string function result as the source of MID$= / LSET / RSET on the same variable is a VALUE
+        (a fresh string): e.g. MID$(A$,2)=LEFT$(A$,255) copies the old contents, it is not the overlap case *)
+Theorem C09_midset_compose : forall t st n v, in16 st -> in16 n -> midstmt_valid t st n ->
+  mid_stmt_src t st (Some n) (Ok v) = Ok (ref_midset t st n v) /\
+  (forall e, mid_stmt_src t st (Some n) (Err e) = Err e).
+Proof.
+  intros t st n v I1 I2 V. split.
+  - rewrite mid_stmt_src_value. rewrite (mid_stmt_checks t st n v false I1 I2 V). exact (midset_copy t st n v V).
+  - intros e. exact (mid_stmt_src_err t st n e I1 I2 V).
+Qed.
+Print Assumptions C09_midset_compose.
+
+Theorem C09_midset_compose_left : forall t st n, in16 st -> in16 n -> midstmt_valid t st n ->
+  (length t <= 255)%nat ->
+  mid_stmt_src t st (Some n) (left_ t 255) = Ok (ref_midset t st n t).
+Proof. exact mid_stmt_src_left. Qed.
+Print Assumptions C09_midset_compose_left.
+
+Theorem C09_lset_compose : forall t v,
+  lset_src t (Ok v) false = Ok (ref_lset (length t) v) /\ lset_src t (Ok v) true = Ok (ref_rset (length t) v).
+Proof. intros t v. split; [exact (lset_spec t v)|exact (rset_spec t v)]. Qed.
+Print Assumptions C09_lset_compose.
+
 (* ---- non-vacuity *)
 Example C09_nonvacuous :
   let s := [65; 66; 67; 68; 69; 70] in
